@@ -3,6 +3,8 @@
 # its demonstration fails with the change and passes without it.  Uses two scratch worktrees outside /repo and /verif.
 set -u
 d=$1
+# one verification at a time (the two worktrees are shared)
+exec 9>/var/tmp/seed-verify.lock; flock 9
 base=/var/tmp/wt-seedv-base; mut=/var/tmp/wt-seedv-mut
 for w in $base $mut; do
   if [ ! -d $w ]; then git -C /repo worktree add --detach $w HEAD >/dev/null 2>&1; fi
